@@ -116,6 +116,23 @@ async fn serve_metrics<IB: Body>(_req: Request<IB>) -> Result<Response<Full<Byte
         .unwrap())
 }
 
+/// Quote a string as a JSON string (RFC8259 section 7).
+fn json_string(s: &str) -> String {
+    use std::fmt::Write as _;
+    let mut ret = String::with_capacity(s.len() + 2);
+    ret.push('"');
+    for c in s.chars() {
+        match c {
+            '"' => ret.push_str("\\\""),
+            '\\' => ret.push_str("\\\\"),
+            c if (c as u32) < 0x20 => write!(ret, "\\u{:04x}", c as u32).unwrap(),
+            c => ret.push(c),
+        }
+    }
+    ret.push('"');
+    ret
+}
+
 async fn serve_leases<IB: Body>(
     _req: Request<IB>,
     dhcp: &std::sync::Arc<crate::dhcp::DhcpService>,
@@ -139,7 +156,7 @@ async fn serve_leases<IB: Body>(
                 crate::dhcp::dhcppkt::parse_options(crate::pktparser::Buffer::new(&li.options))
                     .ok()
                     .and_then(|o| o.get_hostname())
-                    .map(|h| format!(", \"host-name\": {:?}", h))
+                    .map(|h| format!(", \"host-name\": {}", json_string(&h)))
                     .or_else(|| Some("".to_string()))
                     .unwrap(),
             ))
